@@ -42,6 +42,7 @@ from .c19_lib import lam_path
 from .c19_lib import leq
 from .c19_lib import lstr
 from .c19_lib import nest
+from .c19_lib import numeric_string_in_domain
 from .c19_lib import skey
 from .c19_lib import to_number
 from .c19_lib import value_class
@@ -68,6 +69,12 @@ def gen_collect(rng: random.Random, i: int) -> dict[str, Any]:
     if m < 0.45:
         # numbers for sum
         c = rng.random()
+        if c < 0.06:
+            # cancellation: the exact sum is small although the terms are huge
+            big = g_int(rng, big=1.0)
+            xs = [big, -big + rng.randint(-200, 200), rng.choice((1.0, 0.5, 2.5, 1, 7))]
+            rng.shuffle(xs)
+            return {"mode": "numbers", "x": xs, "pseed": ps}
         if c < 0.4:
             pool = [g_int(rng) for _ in range(4)] + [0, 1, -1]
         elif c < 0.7:
@@ -112,6 +119,8 @@ def _sum_ref(vals: list[Any]) -> tuple[Fraction, bool]:
 
 
 def _sum_domain_ok(vals: list[Any]) -> bool:
+    if not all(numeric_string_in_domain(v) for v in vals):
+        return False
     nums = [to_number(v) for v in vals if not isinstance(v, bool)]
     if any(isinstance(n, float) for n in nums):
         return all(abs(n) < 1e300 for n in nums) and abs(_sum_ref(vals)[0]) < Fraction(10) ** 300
@@ -142,6 +151,9 @@ def _sum_q(vals: list[Any]) -> str:
             cl.add("non-number")
     if "non-numeric-string" in cl:
         return "non-numeric-string"
+    if "float" in cl and any(is_num(to_number(v)) and isinstance(to_number(v), int) and abs(to_number(v)) >= 10**28
+                             for v in vals if not isinstance(v, bool)):
+        return "float-with-int-over-28-digits"
     if len(cl) > 1:
         cl.discard("int")
     return "+".join(sorted(cl))
@@ -174,7 +186,7 @@ def case_collect(R: Runner, inp: dict[str, Any]) -> None:
             s = R.both("sum", x, cls=q)
             _sum_check(R, "exact-sum-of-numeric-elements", s, vals, q)
             sp = R.both("sum", px, cls=q)
-            _sum_check(R, "order-independent", sp, vals, q)
+            _sum_check(R, "exact-sum-of-numeric-elements", sp, vals, q)  # same sum whatever the order
         if mode == "scalars":
             u = R.both("uniq", x)
             R.expect_ok("uniq", "total", u)
@@ -260,7 +272,7 @@ def case_collect(R: Runner, inp: dict[str, Any]) -> None:
                 if R.recording:
                     R.ctx.count("lambda_form_comparisons")
             sp = R.both("sum", px, k, cls=q)
-            _sum_check(R, "order-independent", sp, vals, q)
+            _sum_check(R, "exact-sum-of-property", sp, vals, q)  # same sum whatever the order
 
 
 # ---------------------------------------------------------------------------
@@ -303,7 +315,7 @@ def gen_listalg(rng: random.Random, i: int) -> dict[str, Any]:
             x = rng.choice((5, 12345, 0, 10**20))
         n = len(x) if isinstance(x, (str, list)) else len(str(x))
         start = rng.choice((rng.randint(-n, n + 2), rng.randint(-n, n + 2), 2**63, 10**30)) if n else rng.randint(0, 2)
-        length: Any = rng.choice((rng.randint(-2, n + 3), rng.randint(0, n + 1), 10**30, 2**64, "$default"))
+        length: Any = rng.choice((rng.randint(-2, n + 3), rng.randint(0, n + 1), 10**30, 2**64, "$default", -1))
         if rng.random() < 0.1:
             start = str(start)
         if rng.random() < 0.1 and length != "$default":
@@ -393,8 +405,8 @@ def case_listalg(R: Runner, inp: dict[str, Any]) -> None:
         if st < -len(E):
             return  # start before the beginning: not documented
         r = R.both("slice", x, start) if length == "$default" else R.both("slice", x, start, length)
-        cl = ("array" if isinstance(x, list) else "string") + (":bigint" if max(abs(st), abs(ln)) > 2**53 else "") \
-            + (":negative-length" if ln < 0 else "")
+        cl = "negative-length" if ln < 0 else \
+            ("array" if isinstance(x, list) else "string") + (":bigint" if max(abs(st), abs(ln)) > 2**53 else "")
         R.expect("slice", "subsequence-from-start-of-length", r, _slice_ref(E, st, ln), cl)
         if isinstance(x, (str, list)) and 0 <= st:
             # list algebra: slice(0, n) ++ slice(n, len) == x
